@@ -19,7 +19,8 @@ PROP = "C04"
 IMPORTS = "Base Hints HintsGen HintsConn"
 FUEL = 40
 RULE = ("hint pairs grown from the grammar (classes/subclasses, None, X|Y, typing.Union/Optional, Literal, "
-        "Annotated, list/set/dict/tuple/type/Callable generics, depth<=3) + (value, hint) pairs; a case is "
+        "Annotated, list/set/dict/tuple/type/Callable generics, depth<=3) + (value, hint) pairs; channel-level pairs as a data "
+        "connection, a value link, and the link a macro re-forges to its typed output when a child is replaced; a case is "
         "non-trivial when at least one side is not a bare class; distinct = distinct (kind, hint, other/value) ASTs")
 TRUSTED = ["tools/py2gallina.py: maps each accepted Python idiom of type_hinting.py to the Hints.v primitive it names",
            "Hints.admits models isinstance + typeguard 4.4 (FIRST_ITEM strategy) for the grammar of the property; "
@@ -350,6 +351,10 @@ def generate(ctx):
         kind = rng.choice(["connect", "link"])
         case = {"kind": kind, "h": h if rng.random() < 0.9 else None, "o": o if rng.random() < 0.9 else None,
                 "s_src": rng.random() < 0.6, "s_dst": rng.random() < 0.75}
+        if rng.random() < 0.12:
+            # the same pair as the value link a macro re-forges when one of its children is replaced
+            case = {"kind": "relink", "h": h, "o": o, "s_src": True, "s_dst": True}
+            kind = "relink"
         key = (kind, repr(case))
         if key in seen:
             continue
@@ -391,11 +396,45 @@ class _Owner:
         return False
 
 
+def _relink_src(x=0):
+    y = x
+    return y
+
+
+_RELINK_CHILD = [None]
+
+
+def _relink_creator(self, x=0):
+    self.c = _RELINK_CHILD[0](x=x)
+    return self.c
+
+
+def run_relink(case):
+    """a macro whose typed output `o` stands for the output of its child c; c is replaced by a node whose output carries the
+    hint `h`: replace_child forges the value link child output -> macro output anew, for the pair (h, o)"""
+    from pyiron_workflow.nodes.function import as_function_node
+    from pyiron_workflow.nodes.macro import as_macro_node
+    _relink_src.__annotations__ = {"return": build(case["o"])}
+    _RELINK_CHILD[0] = as_function_node("y")(_relink_src)
+    _relink_creator.__annotations__ = {"return": build(case["o"])}
+    m = as_macro_node("out")(_relink_creator)(label="m")
+    m.recovery = None
+    _relink_src.__annotations__ = {"return": build(case["h"])}
+    new = as_function_node("y")(_relink_src)(label="c")
+    try:
+        m.replace_child(m.c, new)
+    except (ValueError, TypeError):
+        return False
+    return new.outputs.y.value_receiver is m.outputs.out
+
+
 def run_channels(case):
     from pyiron_workflow.channels import ChannelConnectionError, InputData, OutputData
     own = _Owner()
     th = lambda h: None if h is None else build(h)
     try:
+        if case["kind"] == "relink":
+            return run_relink(case)
         if case["kind"] == "connect":
             out = OutputData("y", own, type_hint=th(case["h"]), strict_hints=case["s_src"])
             inp = InputData("x", own, type_hint=th(case["o"]), strict_hints=case["s_dst"])
@@ -420,7 +459,7 @@ def run_channels(case):
 def run_impl(case):
     from pyiron_workflow.type_hinting import type_hint_is_as_or_more_specific_than as ms, valid_value
     case = _tolist(case)
-    if case["kind"] in ("connect", "link"):
+    if case["kind"] in ("connect", "link", "relink"):
         return run_channels(case)
     if case["kind"] == "cmp":
         try:
@@ -456,7 +495,7 @@ def _dchan(h, strict):
 
 def model_term(case):
     case = _tolist(case)
-    if case["kind"] in ("connect", "link"):
+    if case["kind"] in ("connect", "link", "relink"):
         f = "valid_connection" if case["kind"] == "connect" else "receiver_ok"
         return f"obs_ob ({f} {cn(FUEL)} {_dchan(case['h'], case['s_src'])} {_dchan(case['o'], case['s_dst'])})"
     if case["kind"] == "valid" and case["v"][0] == "cls" and _mentions(case["h"], _is_callable):
@@ -481,7 +520,7 @@ def _has_empty_tuple(h):
 def oracle(case, obs):
     from pyiron_workflow.type_hinting import valid_value
     case = _tolist(case)
-    if case["kind"] in ("connect", "link"):
+    if case["kind"] in ("connect", "link", "relink"):
         if not isinstance(obs, bool):
             return f"crash: forming a {case['kind']} raised {obs}"
         if obs and case["h"] is not None and case["o"] is not None and case["s_dst"]:
@@ -519,7 +558,7 @@ def known(case, obs, verdict):
 
 
 def nontrivial(case, obs):
-    if case["kind"] in ("connect", "link"):
+    if case["kind"] in ("connect", "link", "relink"):
         return case["h"] is not None and case["o"] is not None and (case["h"][0] != "cls" or case["o"][0] != "cls")
     return case["h"][0] != "cls" or (case["kind"] == "cmp" and case["o"][0] != "cls")
 
@@ -571,14 +610,14 @@ def tuple_ast(h):
 
 
 def distribution(results):
-    d = {"cmp": 0, "valid": 0, "connect": 0, "link": 0, "channel_accepted": 0, "cmp_true": 0, "cmp_false": 0, "cmp_crash": 0, "valid_true": 0}
+    d = {"cmp": 0, "valid": 0, "connect": 0, "link": 0, "relink": 0, "channel_accepted": 0, "cmp_true": 0, "cmp_false": 0, "cmp_crash": 0, "valid_true": 0}
     kinds = {}
     for c, enc, v, o in results:
         d[c["kind"]] += 1
         if c["kind"] == "cmp":
             d["cmp_true" if o is True else "cmp_false" if o is False else "cmp_crash"] += 1
             kinds[c["h"][0]] = kinds.get(c["h"][0], 0) + 1
-        elif c["kind"] in ("connect", "link"):
+        elif c["kind"] in ("connect", "link", "relink"):
             d["channel_accepted"] += o is True
         elif o is True:
             d["valid_true"] += 1
